@@ -24,12 +24,12 @@ register("C08", ["c08", "hazards", "pins"],
          ["the EngineInterface implementation stores what it is handed (trusted interface)", "watch::send_if_modified runs its closure under the watch lock (tokio documentation)"],
          TRUSTED)
 
-register("C07", ["c07", "hazards", "pins"],
+register("C07", ["c07", "c07x", "hazards", "pins"],
          "Static term comparison: the return terms of max_faulty_weight / quorum_threshold / subquorum_threshold (MIR, overflow plumbing stripped) are compared with the reference formulas f=(n-1)/5, q=n-f, s=n-3f; an operation census forbids any other arithmetic or cast; the domain n in [1, 2^64-1] is decided from Schedule::new (only constructor, private fields) by guard tables over every loop iteration (no duplicate, weight > 0, checked_add) and the Ok return (non-empty validators and leaders). The inequalities themselves follow from the fixed hand lemma in DESIGN.md section 5 (C07); the checker pins the code to the formulas the lemma is about.",
          ["the lemma in DESIGN.md (integer arithmetic, n >= 1) is correct"],
          TRUSTED)
 
-register("C11", ["c11", "hazards", "pins"],
+register("C11", ["c11", "c11x", "hazards", "pins"],
          "Static analysis of Schedule::view_leader and Schedule::new: may-panic inventory over the call-graph closure (totality), term and guard-table checks that the returned key is indexed through the leaders list built from exactly the leader-flagged validators and that the weighted draw is reduced modulo the very sum the cumulative walk covers (eligible-only), container-kind facts (BTreeMap, no hashed iteration: order independence), an API census of the closure against clock/RNG/environment prefixes (determinism), and the frequency-0 division. Rotation cadence and weight-proportional share are value-level and not decided.",
          ["num_bigint / Keccak256 are deterministic pure functions"],
          TRUSTED)
